@@ -267,6 +267,7 @@ class Heap:
         if not isinstance(v, Ref):
             return False
         c = self.objs[v.name]['__class__']
+        c = getattr(self, 'class_alias', {}).get(c, c)          # a scenario's stand-in object counts as an instance of the class it stands for
         if c == cname:
             return True
         mro = self.module.mro(c) if c in self.module.classes else [c]
@@ -1361,6 +1362,9 @@ class Interp:
                 return int(args[0])          # int() of a decided text / number / bytes
             except ValueError:
                 raise Raised('ValueError', h.version, e.lineno)
+        if norm(fn) == 're.escape' and 're' not in env and len(args) == 1 and isinstance(args[0], (str, bytes)) and not kwargs:
+            import re as _re
+            return _re.escape(args[0])
         if norm(fn) in ('re.findall', 're.split', 're.match', 're.search', 're.fullmatch', 're.sub') and getattr(h, 'native_regex', False) \
                 and all(isinstance(a_, (str, int)) for a_ in args) and all(isinstance(v_, (str, int)) for v_ in kwargs.values()):
             import re as _re
@@ -1483,6 +1487,8 @@ class Interp:
             return str(args[0])
         if isinstance(fn, ast.Name) and fn.id == 'str' and len(args) == 1 and isinstance(args[0], (SStr, str)):
             return args[0]
+        if isinstance(fn, ast.Name) and fn.id == 'str' and 'str' not in h.hooks and len(args) == 1 and isinstance(args[0], Key) and not kwargs:
+            return args[0].spelling          # str() of a case-insensitive string: the plain text of its spelling
         if isinstance(fn, ast.Name) and fn.id == 'len' and len(args) == 1 and (h.is_list(args[0]) or isinstance(args[0], (list, tuple))):
             return len(h.items(args[0])) if h.is_list(args[0]) else len(args[0])
         if isinstance(fn, ast.Attribute) and fn.attr in ('copy', 'update', 'clear') and len(args) <= 1:
